@@ -85,6 +85,33 @@ theorem C03_user_message_only_when_alive_and_idle_system_queue (w : World) (op :
     · exact hs
   | _ => simp [stepR, Rh] at hr
 
+/-- **`terminated` is absorbing**: whatever operations follow (restart requests, late timers,
+messages, watchers, spawns elsewhere), a terminated actor stays terminated -/
+theorem C03_terminated_is_absorbing (w : World) (a : Aid) (h : (actorOf w a).status = .terminated)
+    (ops : List Op) : (actorOf (exec w ops) a).status = .terminated :=
+  exec_dead a w ops h
+
+/-- **run-level form of "nothing at all is handled after its own OnTerminated"**: once an actor is
+terminated, no continuation of the run — any operations, any schedule of the other actors — ever
+records another handler invocation of it -/
+theorem C03_nothing_handled_ever_after_termination (w : World) (a : Aid)
+    (h : (actorOf w a).status = .terminated) (ops : List Op) :
+    ∃ es, (exec w ops).events = w.events ++ es ∧ ∀ i o s, Event.handled a i o s ∉ es := by
+  induction ops generalizing w with
+  | nil => exact ⟨[], by simp [exec], by simp⟩
+  | cons op ops ih =>
+    obtain ⟨es1, h1⟩ := C03_events_extend w op
+    have hno := fun i o s => C03_terminated_handles_nothing w a h op es1 h1 i o s
+    have hdead : (actorOf (step w op) a).status = .terminated := step_dead a w op h
+    obtain ⟨es2, h2, hno2⟩ := ih (step w op) hdead
+    refine ⟨es1 ++ es2, ?_, ?_⟩
+    · show (exec (step w op) ops).events = _
+      rw [h2, h1, List.append_assoc]
+    · intro i o s hmem
+      rcases List.mem_append.mp hmem with hm | hm
+      · exact hno i o s hm
+      · exact hno2 i o s hm
+
 /-! ## the specification checker means what the property says -/
 
 /-- if the lifecycle automaton accepts an observation sequence, nothing follows the incarnation's own
